@@ -239,6 +239,11 @@ def run_group(acc, group, tier, only=None):
         r3 = enc(fill((2, 2, 2), 1))
         c.must_raise("inner_prod", "inner-rank-vm", lambda: X.inner_prod(v2, m22))
         c.must_raise("inner_prod", "inner-rank-mm", lambda: X.inner_prod(m22, m22))
+        for la_ in (1, 2, 3, 4):
+            for lb_ in (1, 2, 3, 4):
+                if la_ != lb_:
+                    xa, xb = enc(fill((la_,), 2)), enc(fill((lb_,), 5))
+                    c.must_raise("inner_prod", f"inner-length-mismatch-{la_}-{lb_}", lambda: X.inner_prod(xa, xb))
         c.must_raise("outer_prod", "outer-rank-mv", lambda: X.outer_prod(m22, v2))
         c.must_raise("outer_prod", "outer-rank-vm", lambda: X.outer_prod(v2, m22))
         c.must_raise("outer_prod", "outer-rank-ss", lambda: X.outer_prod(enc(1 + 1j), enc(2j)))
